@@ -162,6 +162,15 @@ def U(S, a):
     return lambda y: S.t(NP).exists(lambda r: And(r.app_id == a, r.name == y))
 
 
+def set_is_names(S, a, mem, gate):
+    """mem = (gate ? names of the live nameplates of app a : empty), as two implications with
+    triggers the solver meets (a member; a row)"""
+    t = S.t(NP)
+    return And(FA([Str], lambda y: Implies(mem(y), And(gate, U(S, a)(y))), pats=lambda y: [mem(y)] if z3.is_app(mem(y)) and not z3.is_false(mem(y)) else None),
+               FA([INT], lambda r: Implies(And(gate, t.live[r], t.cols["app_id"][r] == a), mem(t.cols["name"][r])),
+                  pats=lambda r: [t.live[r]]))
+
+
 def members(res):
     if isinstance(res, VSet):
         if res.mem is None:
@@ -180,7 +189,7 @@ c = contract("server.AppNamespace._get_nameplate_ids", cls="AppNamespace", param
 def _(c):
     a = c.sf("_app_id")
     mem = members(c.result)
-    yield "unfiltered_set", FA([Str], lambda y: mem(y) == U(c.pre, a)(y)), ["C04", "C06", "C07", "C18"]
+    yield "unfiltered_set", set_is_names(c.pre, a, mem, BoolVal(True)), ["C04", "C06", "C07", "C18"]
 
 
 c = contract("server.AppNamespace.get_nameplate_ids", cls="AppNamespace", params={}, result="set:str",
@@ -191,7 +200,7 @@ c = contract("server.AppNamespace.get_nameplate_ids", cls="AppNamespace", params
 def _(c):
     a = c.sf("_app_id")
     mem = members(c.result)
-    yield "gated", FA([Str], lambda y: mem(y) == And(H.CFG_ALLOW_LIST, U(c.pre, a)(y))), ["C18", "C07"]
+    yield "gated", set_is_names(c.pre, a, mem, H.CFG_ALLOW_LIST), ["C18", "C07"]
 
 
 # ------------------------------------------------ _find_available_nameplate_id
@@ -679,6 +688,18 @@ def _(c):
     oldnp = lambda n: And(np0.live[n], np0.cols["app_id"][n] == a, oldid(np0.cols["mailbox_id"][n]))
     yield "delete_complete.nameplates", is_delete(np0, S1.t(NP), lambda r: oldnp(r.r)), ["C12", "C13", "C07", "C06"]
     yield "delete_complete.nameplate_sides", is_delete(S0.t(NS), S1.t(NS), lambda r: oldnp(r.nameplates_id)), ["C12", "C13", "C07", "C06"]
+    # C12 in "survivor form": whatever hangs off a mailbox row that is still there is untouched
+    from pvc.state import same_row
+    survives = lambda y: EX([INT], lambda r: And(mb1.live[r], mb1.cols["id"][r] == y))
+    for key, col in ((MS, "mailbox_id"), (MSG, "mailbox_id"), (NP, "mailbox_id")):
+        t0, t1 = S0.t(key), S1.t(key)
+        yield "survivors_keep." + key, FA([INT], lambda r, t0=t0, t1=t1, col=col: Implies(
+            And(t0.live[r], survives(t0.cols[col][r])), And(t1.live[r], same_row(t0, t1, r))),
+            pats=lambda r, t0=t0, t1=t1: [t1.live[r], t0.live[r]]), ["C12", "C06"]
+    ns0, ns1 = S0.t(NS), S1.t(NS)
+    yield "survivors_keep." + NS, FA([INT], lambda r: Implies(
+        And(ns0.live[r], np0.live[ns0.cols["nameplates_id"][r]], survives(np0.cols["mailbox_id"][ns0.cols["nameplates_id"][r]])),
+        And(ns1.live[r], same_row(ns0, ns1, r))), pats=lambda r: [ns1.live[r], ns0.live[r]]), ["C12", "C06"]
     nothing = Not(EX([INT], oldrow))
     yield "usage_only_on_retirement", Implies(Or(nothing, Not(H.CFG_USAGE)),
                                               And(tbl_eq(S0.t(UNP), S1.t(UNP)), tbl_eq(S0.t(UMB), S1.t(UMB)))), ["C15", "C18"]
